@@ -830,6 +830,54 @@ func keOracle(r *rand.Rand, n int, tier string, infile string) (cases int, fails
 			bad("C03 an initiator took key 0 as its peer (hsIndex %d, canSend=%v, Deliver err=%v) from a RespHello that carries key 0's signature over the channel binding of ANOTHER handshake, presented by a party without key 0", I.VerifHsIndex(), I.VerifCanSend(), derr)
 		}
 	}
+	// C03: a signature made for ANOTHER PURPOSE. An InitHello travels in the clear and carries the sender's key and its
+	// signature over a time stamp. The adversary (no victim key) first lets the target verify the victim's genuine
+	// InitHello on its responder path, then answers the target's own InitHello as a raw Noise responder with its own
+	// ephemeral and a RespHello naming the victim's key with that time-stamp signature in the place of the signature
+	// over this handshake's channel binding.
+	crossPurposeCase := func() {
+		cases++
+		suite := noise.NewCipherSuite(noise.DH25519, noise.CipherChaChaPoly, noise.HashBLAKE2b)
+		V := newSess(true, 0, 1)
+		vh := V.Handshake(nil)
+		if len(vh) < 4+32+2 {
+			return
+		}
+		body := vh[4:]
+		l := int(binary.BigEndian.Uint16(body[len(body)-2:]))
+		if l+2 > len(body) {
+			return
+		}
+		var claim p2pke.InitHello
+		if proto.Unmarshal(body[len(body)-2-l:len(body)-2], &claim) != nil || len(claim.Sig) == 0 {
+			forgerBroken++
+			return
+		}
+		RT := newSess(false, 1, 2)
+		RT.Deliver(nil, vh, now)
+		I := newSess(true, 1, 3)
+		ih := I.Handshake(nil)
+		hsB, err := noise.NewHandshakeState(noise.Config{Initiator: false, Pattern: noise.HandshakeNN, CipherSuite: suite})
+		if err != nil || len(ih) < 4 {
+			return
+		}
+		if _, _, _, err := hsB.ReadMessage(nil, ih[4:]); err != nil {
+			forgerBroken++
+			return
+		}
+		payload, err := proto.Marshal(&p2pke.RespHello{KeyX509: claim.KeyX509, Sig: claim.Sig})
+		if err != nil {
+			return
+		}
+		rhB, _, _, err := hsB.WriteMessage([]byte{0, 0, 0, 1}, payload)
+		if err != nil {
+			return
+		}
+		_, _, derr := I.Deliver(nil, rhB, now)
+		if keyIndex(I.RemoteKey()) == "0" && (derr == nil || I.IsReady() || I.VerifCanSend() || I.VerifCanReceive() || I.VerifHsIndex() >= 2) {
+			bad("C03 an initiator took key 0 as its peer (hsIndex %d, canReceive=%v, Deliver err=%v) from a RespHello that carries key 0's signature over a TIME STAMP (lifted from one of key 0's InitHellos, which this process had just verified) where the signature over this handshake's channel binding belongs", I.VerifHsIndex(), I.VerifCanReceive(), derr)
+		}
+	}
 	// C03: a liar. A real Session whose registry marshals the VICTIM's public key wherever its own belongs, while it
 	// signs with its own private key (key 3): every claim it makes (InitHello time-stamp claim, RespHello and InitDone
 	// channel-binding signatures) is well-formed, names the victim and carries a signature the victim never made.
@@ -1211,6 +1259,7 @@ func keOracle(r *rand.Rand, n int, tier string, infile string) (cases int, fails
 			overtakeCase()
 			liarCase()
 			sigReplayCase()
+			crossPurposeCase()
 			concurrentSendCase()
 			rekeyHijackCase()
 		}
